@@ -226,3 +226,13 @@ def iterative_prox(base, stats=None):
             stats["buggify.prox_evaluated_by_inner_solver"] += 1
         return z
     return prox
+
+
+def as_view(a):
+    """The caller's array as a strided view of a larger array it owns (in-place
+    updates must go through the view; nothing may assume contiguity or ownership)."""
+    if a.ndim == 0 or a.shape[-1] == 0:
+        return a
+    big = np.zeros(a.shape[:-1] + (a.shape[-1] * 2,), dtype=a.dtype)
+    big[..., ::2] = a
+    return big[..., ::2]
